@@ -621,6 +621,9 @@ func funcContainsCall(f *ssa.Function, pred func(cc *ssa.CallCommon) bool) bool 
 // allInstrs iterates over all instructions of f.
 func allInstrs(f *ssa.Function, fn func(ssa.Instruction)) {
 	for _, b := range f.Blocks {
+		if b == f.Recover {
+			continue // synthetic block of functions with defers: returns the named results after a recovered panic
+		}
 		for _, in := range b.Instrs {
 			fn(in)
 		}
